@@ -1,5 +1,6 @@
 """Loader + symbol tables: parses every *.py of the package under $VERIF_REPO on each run."""
 import ast
+import copy
 import hashlib
 import os
 
@@ -428,6 +429,60 @@ def _merge_destructuring(fn):
     return n_done
 
 
+def _tail_duplicate_return(fn, known):
+    """a function body that ends `if C: A else: B` + `return E`, E built from plain names of which at least one is a NEW local
+    (not in the reference tree) assigned in the branches, is the same function with the return at the end of each branch
+    (tail duplication - always behaviour-preserving); the temporaries then fold into the returns."""
+    body = fn.body
+    if len(body) < 2 or not isinstance(body[-1], ast.Return) or not isinstance(body[-2], ast.If) or body[-1].value is None:
+        return 0
+    ret = body[-1]
+    v = ret.value
+    elts = v.elts if isinstance(v, ast.Tuple) else [v]
+    if not all(isinstance(e, (ast.Name, ast.Constant)) for e in elts):
+        return 0
+    names = {e.id for e in elts if isinstance(e, ast.Name)}
+    new_names = {n for n in names if n not in known}
+    stored = {x.id for x in ast.walk(body[-2]) if isinstance(x, ast.Name) and isinstance(x.ctx, ast.Store)}
+    if not (new_names & stored):
+        return 0
+
+    def ends(stmts):
+        return bool(stmts) and isinstance(stmts[-1], (ast.Return, ast.Raise, ast.Continue, ast.Break))
+
+    def push(stmts):
+        if ends(stmts):
+            return
+        if stmts and isinstance(stmts[-1], ast.If):
+            push(stmts[-1].body)
+            if stmts[-1].orelse:
+                push(stmts[-1].orelse)
+            else:
+                stmts[-1].orelse = [copy.deepcopy(ret)]
+            return
+        stmts.append(copy.deepcopy(ret))
+        # the block now ends in its own return: a name it binds itself (first occurrence is a plain store) is private to the
+        # block - give it a name of its own, so that it is a single-assignment temporary of the function
+        for nm in sorted(names):
+            for i, st in enumerate(stmts):
+                occ = [x for x in ast.walk(st) if isinstance(x, ast.Name) and x.id == nm]
+                if not occ:
+                    continue
+                if isinstance(st, ast.Assign) and len(st.targets) == 1 and isinstance(st.targets[0], ast.Name) and \
+                        st.targets[0].id == nm and not any(isinstance(x, ast.Name) and x.id == nm for x in ast.walk(st.value)):
+                    counter[0] += 1
+                    for st2 in stmts[i:]:
+                        for x in ast.walk(st2):
+                            if isinstance(x, ast.Name) and x.id == nm:
+                                x.id = "%s__t%d" % (nm, counter[0])
+                break
+    counter = [0]
+    del body[-1]
+    push(body)
+    ast.fix_missing_locations(fn)
+    return 1
+
+
 def _with_suppress(fn):
     """`with contextlib.suppress(E1, E2): BODY` is `try: BODY except (E1, E2): pass` (the documented equivalence; only for the
     single-item form without `as`). Returns the number of rewrites."""
@@ -546,7 +601,8 @@ class Repo:
             owner = f
             while owner is not None and owner.cls is None:
                 owner = owner.parent
-            n = TI.fold_aliases(f.node, kl.get(q, set()), stable.get(owner.cls.qual, set()) if owner is not None else set())
+            n = _tail_duplicate_return(f.node, kl.get(q, set()))
+            n += TI.fold_aliases(f.node, kl.get(q, set()), stable.get(owner.cls.qual, set()) if owner is not None else set())
             n += TI.normalise_function(f.node, kl.get(q, set()))
             n += _with_from_acquire(f.node)
             n += _with_suppress(f.node)
